@@ -110,7 +110,7 @@ pub fn tl(u: U, max_kfs: u8, t: Timing, back: bool, custom: bool) -> TlDesc {
     let n = byte(u) % (max_kfs + 1);
     let default_ez = ez(u, back, custom);
     let kfs = (0..n).map(|_| kf(u, back, custom)).collect();
-    TlDesc { timing: t, default_ez, kfs, order: byte(u) % 4 }.sanitize()
+    TlDesc { timing: t, default_ez, kfs, order: byte(u) % 8 }.sanitize()
 }
 pub fn timespec(u: U) -> TimeSpec {
     let k = |u: U| -> u32 {
@@ -337,7 +337,7 @@ pub fn c20_case(u: U) -> mv_core::c_robust::C20Case {
             ez: if chance(u, 2, 5) { Some(ez(u, true, true)) } else { None },
         })
         .collect();
-    let mut tl = TlDesc { timing: t, default_ez, kfs, order: 0 }.sanitize();
+    let mut tl = TlDesc { timing: t, default_ez, kfs, order: byte(u) % 8 }.sanitize();
     let back = tl.uses_back();
     if back {
         for k in tl.kfs.iter_mut() {
